@@ -1,6 +1,7 @@
 (* Eng/Extract.v — extraction of the C20 model (ExtrOcamlBasic only) *)
 From Coq Require Import ExtrOcamlBasic.
-From ZV Require Import Eng.Model.
+From ZV Require Import Eng.Model Eng.IndexKey.
 Extraction Language OCaml.
 Extraction "model.ml" Z.of_N N.of_nat Nat.add run_script db_empty range_query strip_ts
-  db_range_limit db_range sm_find sm_insert sm_remove sm_remove_range apply_ops.
+  db_range_limit db_range sm_find sm_insert sm_remove sm_remove_range apply_ops
+  to_index_key from_index_key is_prefix bytes_cmp.
